@@ -242,19 +242,24 @@ def main():
         pass
 
     ctx = Ctx(pid, tier)
+    broken = None
     try:
         mod = importlib.import_module('props.' + pid)
         mod.check(ctx)
     except AnalysisBroken as e:
         print('ANALYSIS-BROKEN property=%s: %s' % (pid, e))
-        return 2
+        # obligations refuted before the analysis stopped were decided on shapes the rules know: they stand
+        if not ctx.findings:
+            return 2
+        broken = str(e)
+        ctx.notes.append('analysis incomplete (stopped at: %s); the refuted obligations were decided before that point' % broken)
     except Exception:
         traceback.print_exc()
         print('ANALYSIS-BROKEN property=%s: internal error in checker' % pid)
         return 2
 
     thorough_info = None
-    if tier == 'thorough':
+    if tier == 'thorough' and broken is None:
         try:
             thorough_info = thorough(pid, mod, ctx)
         except AnalysisBroken as e:
